@@ -574,6 +574,9 @@ Advance(s) ==
                ELSE IF s.pausedF = "pending" THEN [s EXCEPT !.task.woken = FALSE]
                ELSE Advance([s EXCEPT !.stepping = TRUE, !.task.pc = "exec"]))
          ELSE Advance([(IF s.pausedF # "none" THEN Dev(s, "D6") ELSE s) EXCEPT !.stepping = TRUE, !.task.pc = "exec"])
+    [] s.task.pc = "cancelling" ->        \* the owner cancelled the task parked at the gate: CancelledError is thrown into
+                                          \* `await self._paused` (outside step()'s try) and ends step_until_terminated()
+         TaskFailed(s, "CancelledError")
     [] s.task.pc = "awaitWF" ->           \* continues inside the *old* Waiting.execute
          IF s.wf.st = "result"
          THEN AfterExec(s, [kind |-> "state",
@@ -705,6 +708,13 @@ StepCancel(s, rdy)      ==                   \* process.future().cancel()
                         !.mon.killTexts = @ \cup {"Killed by future being cancelled"},
                         !.mon.cancelled = TRUE], <<"cancel">>),
    rdy |-> Append(rdy, "trykill")]
+\* the owner of the stepping task (asyncio.wait_for timing out, a runner shutting down) cancels it while it is parked at
+\* the pause gate: asyncio cancels the future the task awaits at once (the pause future is then *done but still attached*:
+\* the process stays paused) and schedules the task, which ends with CancelledError.  Nothing drives the process afterwards,
+\* but every request is still answered synchronously (kill and fail terminate it, play un-pauses it).
+TaskCancellable(s) == s.task.pc = "awaitPaused" /\ ~s.task.woken /\ s.pausedF = "pending"
+StepTaskCancel(s, rdy)  ==
+  [s |-> Note([s EXCEPT !.pausedF = "cancelled", !.task.pc = "cancelling"], <<"taskcancel">>), rdy |-> Append(rdy, "task")]
 StepCallSoon(s, rdy, kind) == [s |-> Note(s, <<"callsoon", kind>>), rdy |-> Append(rdy, "cb" \o kind)]
 StepRun(s, rdy)         == LET s1 == Handle(s, Head(rdy)) IN [s |-> Flush(s1), rdy |-> Tail(rdy) \o s1.sched]
 
@@ -717,6 +727,7 @@ EnvPlay           == Offered("play") /\ Env(StepPlay(S, ready))
 EnvResume(v)      == Offered("resume") /\ Env(StepResume(S, ready, v))
 EnvFail           == Offered("fail") /\ Env(StepFail(S, ready))
 EnvCancel         == Offered("cancel") /\ S.fut.st = "pending" /\ Env(StepCancel(S, ready))
+EnvTaskCancel     == Offered("taskcancel") /\ TaskCancellable(S) /\ Env(StepTaskCancel(S, ready))
 EnvCallSoon(kind) == Offered("cb" \o kind) /\ Env(StepCallSoon(S, ready, kind))     \* kind: "ok" | "raise"
 \* the environment completes an awaited future (or child process): oc = <<"ok", v>> | <<"fail", e>>
 StepComplete(s, rdy, i, oc) ==
@@ -764,6 +775,7 @@ Next ==
   \/ \E v \in ResumeVals : EnvResume(v)
   \/ EnvFail
   \/ EnvCancel
+  \/ EnvTaskCancel
   \/ EnvCallSoon("ok") \/ EnvCallSoon("raise")
   \/ EnvSave \/ EnvRestore \/ EnvClose
   \/ \E i \in 1..MaxAwaitables, kind \in OutcomeKinds : EnvComplete(i, Outcome(i, kind))
